@@ -559,7 +559,7 @@ PROPS["C08"]["level_text"] += (" recv_events() (real ctx.c, bounded batch): with
 PROPS["C08"]["not_decided"] = ["pill handling for batches of more than 3 messages (bounded stand-in; the per-message step is the same)", "batching + poison pill interplay (C02 lets batched messages be discarded)"]
 # (a contract-instrumented unit for m_mod_ps_subscribe -- contracts kept in subs.contracts.h under V_SUBSCRIBE_UNIT -- ran out of memory: the destructor function pointers of the real
 # reference-counting code make m_mem_unref/mem_dtor mutually recursive for CBMC; the registered unit is the real-code one, ps.subscribe_real, with recursion unwound 3 deep)
-U("ps.subscribe_real", src="units/ps_real.c", harness="h_subscribe_real", plain=True, logctx="CORE", replace_calls={"memcpy": "v_memcpy_regex"},
+U("ps.subscribe_real", src="units/ps_real.c", harness="h_subscribe_real", plain=True, logctx="CORE", replace_calls={"memcpy": "v_memcpy_regex"}, defines=["V_SUBREAL"],
   props=["C09", "C04"], contract_files=[], native=True, timeout=600, min_obligations=20, unwind=3, unwindset={"v_was_freed.0": 8, "v_strncmp.0": 12, "v_strlen.0": 12, "v_base_init.0": 8, "v_inputs_init.0": 8})
 U("ps.tell_system", src="units/ps_unit.c", harness="h_tell_system", enforce="tell_system_pubsub_msg", defines=["V_ROUTE_UNIT"], logctx="CORE",
   replace=["tell_if", "tell_subscribers", "m_map_iterate"], props=["C19", "C08", "C02", "C04"], contract_files=SUBSC, native=False, timeout=300, min_obligations=20)
@@ -610,3 +610,5 @@ U("ps.unsubscribe", src="units/ps_unit.c", harness="h_unsubscribe", enforce="m_m
 
 PROPS["C09"]["level_text"] += " m_mod_ps_unsubscribe(): exactly one removal under the caller's topic; a present subscription goes (and the table with the last one), an absent one fails without effect."
 PROPS["C09"]["not_decided"] = ["that the BST behind the abstract keyed set is a set for > K nodes (C11 is bounded)", "one-shot removal in recv_events for batches of more than 2 events (bounded stand-in)"]
+# (evts.unstash with a loop contract: retried with the lessons of round 2 -- explicit ghost frames, pointer_equals, count-only release -- symbolic execution now finishes but the SAT
+# reduction runs out of 12 GB after 7 min; not registered, the bounded real-code unit evts.unstash_real stands)
